@@ -455,7 +455,7 @@ static void site_rt(quill::Logger* lg, std::string const& m, std::string const& 
 {
   LOG_RUNTIME_METADATA(lg, quill::LogLevel::Error, file, line, fn, "{}", m);
 }
-#line 362 "h3_pattern.cpp"
+#line 459 "h3_pattern.cpp"
 
 static std::vector<std::string> ref_split(std::string const& msg_in, bool ml, bool named)
 {
@@ -722,7 +722,8 @@ static std::string gen_spec(Rng& r, size_t value_len)
   // specs fmt rejects for strings, or outside the modelled subset
   ++g_stats["spec_odd"];
   static std::vector<std::string> const odd = {"d", "05", "+", "#", "x", "5d", "<05", " 5", "L", ".", ".x", "5.", "5<", "<<<", "s",
-                                               "?", "10s", "99999999999", ".99999999999", "2147483648", "c", "-", "0", "<.", "e"};
+                                               "?", "10s", "99999999999", ".99999999999", "2147483648", "c", "-", "0", "<.", "e",
+                                               "{<5", "}<5", "{}", "{0}", "x{<4", "70000"};
   return r.pick(odd);
 }
 
